@@ -505,3 +505,54 @@ def every_position_project(run):
         long_lived(p)
         sweep(run, p, 'project-no-filename', 'from . import x\nfrom .m import y\nimport mc\nmc.q\n', files=PROJECT)
     core.explore(lambda: None, lambda p, out: go(p))
+
+
+LONG_REPLAY = '''import sys; sys.path.insert(0, %(repo)r)
+from supp.assistant import assist, location
+from supp.project import Project
+n = %(n)d
+src = 'def f(x):\\n' + ''.join('    if x:\\n        x = %%d\\n' %% i for i in range(n)) + '    return x\\n'
+for fn in (assist, location):
+    try:
+        fn(Project(['/nonexistent']), src, (2 * n + 2, 12))
+        print(fn.__name__, 'answers')
+    except Exception as e:
+        print('REPRODUCED: %%s at the last read of a function with %%d compound statements in a row raises %%s' %% (fn.__name__, n, type(e).__name__))
+'''
+
+
+@harness(['C08'], 'supp.assistant.assist / location [the last read of a long body]',
+         bounded='a function body of N if statements in a row (and the same at module level, and as one elif chain), cursor on the read behind them, on a '
+                 'freshly analysed text; N = 20, 60 (three times the longest such body of the standard library, which has 21) and 200')
+def long_bodies(run):
+    """BOUNDED: the first request on a fresh analysis may be for the last read of a long body; it answers (raises nothing but SyntaxError) whatever
+    the number of statements before it.  Not counted as proved."""
+    import logging
+    import supp.assistant as A
+    import supp.project as Pj
+
+    def go(path):
+        logging.disable(logging.CRITICAL)
+        for n in (20, 60, 200):
+            shapes = {
+                'function-body': ('def f(x):\n' + ''.join('    if x:\n        x = %d\n' % i for i in range(n)) + '    return x\n', (2 * n + 2, 12)),
+                'module-level': ('x = 0\n' + ''.join('if x:\n    x = %d\n' % i for i in range(n)) + 'print(x)\n', (2 * n + 2, 7)),
+                'loops-and-try': ('def f(x):\n' + ''.join('    for i%d in x:\n        x = i%d\n    try:\n        x = %d\n    except KeyError:\n        pass\n' % (i, i, i)
+                                                        for i in range(n // 2)) + '    return x\n', (6 * (n // 2) + 2, 12)),
+            }
+            for shape, (src, pos) in shapes.items():
+                for fn in (A.assist, A.location):
+                    try:
+                        fn(Pj.Project(['/nonexistent']), src, pos)
+                        exc = None
+                    except SyntaxError:
+                        exc = None
+                    except BaseException as e:
+                        exc = e
+                    if exc is not None and shape == 'function-body':
+                        core.RUN.concretise = lambda model, ob, n=n: {'input': 'a function of %d if statements in a row, cursor on the read behind them' % n,
+                                                                      'script': LONG_REPLAY % {'repo': core.REPO, 'n': n}}
+                    prove('%s-of-%d-statements:%s-answers' % (shape, n, fn.__name__), exc is None,
+                          clause='raises nothing but SyntaxError [%s]' % (type(exc).__name__ if exc is not None else 'answered'), path=path)
+                    core.RUN.concretise = None
+    core.explore(lambda: None, lambda p, out: go(p))
